@@ -59,6 +59,21 @@ theorem min_max_spec (now : Val) (f : String) (fs : Fields) (n k : Int) (h : dge
     runUpdater .min now (.doc fs) f (.int k) = .ok (.doc (dset f (.int (if k < n then k else n)) fs)) :=
   Proofs.C02.min_max_spec now f fs n k h
 
+/-- … and the same on an element of an array (the parent of the last path component is an array,
+    addressed by index `i`): the element becomes the larger / smaller of the two, the other
+    elements stay; an index past the end stores the value there, padding with nulls.  (Repaired
+    defect `minmax-array-noop`: the operators used to leave an array alone.) -/
+theorem min_max_array_spec (now : Val) (xs : List Val) (i : Nat) :
+    (∀ n k : Int, xs[i]? = some (.int n) →
+      runUpdater .max now (.arr xs) (toString i) (.int k) =
+        .ok (.arr (xs.set i (.int (if k > n then k else n)))) ∧
+      runUpdater .min now (.arr xs) (toString i) (.int k) =
+        .ok (.arr (xs.set i (.int (if k < n then k else n))))) ∧
+    (∀ v : Val, xs[i]? = none →
+      runUpdater .max now (.arr xs) (toString i) v = .ok (.arr (padSet xs i v)) ∧
+      runUpdater .min now (.arr xs) (toString i) v = .ok (.arr (padSet xs i v))) :=
+  Proofs.C02.min_max_array_spec now xs i
+
 /-- `$pop: 1` drops the last element, `$pop: -1` the first; nothing else changes. -/
 theorem pop_spec (now : Val) (f : String) (fs : Fields) (xs : List Val) (h : dget f fs = some (.arr xs)) :
     runUpdater .pop now (.doc fs) f (.int 1) = .ok (.doc (dset f (.arr xs.dropLast) fs)) ∧
@@ -107,13 +122,22 @@ theorem push_slice_spec (xs es : List Val) (n : Int) :
                  else (xs ++ es).take n.toNat)) :=
   Proofs.C02.push_slice_spec xs es n
 
-/-- `$addToSet` keeps the old elements in order and appends exactly the listed values that were
-    not there; a single value already present changes nothing. -/
+/-- `$addToSet` of a single value appends it unless an equal element is there (`addOne`); with
+    `$each` the listed values are added one after the other (`addAll = foldl addOne`), so a value
+    listed twice is added once.  (Repaired defect `addtoset-each-dups`: every listed value used to
+    be compared with the old array only.) -/
 theorem addToSet_spec (xs es : List Val) (v : Val) (hv : ∀ fs, v = .doc fs → dget "$each" fs = none) :
-    addToSetValue (.arr xs) (.doc [("$each", .arr es)]) =
-      .ok (.arr (xs ++ es.filter (fun o => !pyIn o xs))) ∧
-    addToSetValue (.arr xs) v = .ok (.arr (if pyIn v xs then xs else xs ++ [v])) :=
+    addToSetValue (.arr xs) (.doc [("$each", .arr es)]) = .ok (.arr (addAll xs es)) ∧
+    addToSetValue (.arr xs) v = .ok (.arr (addOne xs v)) :=
   Proofs.C02.addToSet_spec xs es v hv
+
+/-- … which keeps the old elements in order in front, and appends only listed values that were
+    not there, no two of them equal. -/
+theorem addToSet_each_once (xs es : List Val) :
+    ∃ added, addAll xs es = xs ++ added ∧
+      (∀ o ∈ added, o ∈ es ∧ pyIn o xs = false) ∧
+      added.Pairwise (fun a b => pyEq a b = false) :=
+  Proofs.C02.addToSet_each_once xs es
 
 /-- `$pullAll` removes exactly the elements equal to a listed value, keeping the others in
     order. -/
@@ -125,6 +149,25 @@ theorem pullAll_spec (xs vs : List Val) :
 theorem pull_spec (v : Val) (xs : List Val) (hv : isScalar v = true) (hx : xs.all isScalar = true) :
     pullList v xs = .ok (xs.filter (fun o => !pyEq v o)) :=
   Proofs.C02.pull_spec v xs hv hx
+
+/-- `$pull` along a dotted path edits the array the path leads to (sub-documents by key, arrays by
+    index: `getPath`) and nothing else: when the path holds an array, afterwards it holds the
+    pulled array; when it does not exist or holds something else, the document is unchanged.
+    (Repaired defect `pull-through-array`: the walk used to stop at the first component it could
+    not follow and pull from the array it had reached.) -/
+theorem pull_path_spec (value : Val) (parts : List String) (d d' : Val)
+    (h : pullWalk value parts d = .ok d') :
+    (∀ xs, getPath parts d = some (.arr xs) →
+      ∃ ys, pullList value xs = .ok ys ∧ getPath parts d' = some (.arr ys)) ∧
+    ((∀ xs, getPath parts d ≠ some (.arr xs)) → d' = d) :=
+  Proofs.C02.pull_path_spec value parts d d' h
+
+/-- `$pullAll` on a path that does not exist leaves the document exactly as it was — no
+    intermediate sub-document is created.  (Repaired defect `pullall-creates-path`.) -/
+theorem pullAll_missing_path_noop (spec d : Val) (field : String) (value d' : Val)
+    (hm : getPath (splitDots field) d = none)
+    (h : pullAllField spec d field value = .ok d') : d' = d :=
+  Proofs.C02.pullAll_missing_path_noop spec d field value d' hm h
 
 /-! ### replacement, untouched fields, server versions -/
 
@@ -216,6 +259,22 @@ example : okIs (pushValue (.arr [.int 1, .int 2, .int 3])
     (match pullList (.int 1) [.int 1, .bool true, .int 2, .dbl 2 1, .str "1"] with
      | .ok r => Val.arr r == .arr [.int 2, .str "1"]
      | .error _ => false) = true := by decide +kernel
+
+/-- the four repaired defects on their witnesses: `$pullAll` on a missing path, duplicates inside
+    `$each`, `$min` on an array element (and past the end), `$pull` with a path into an array of
+    scalars (no-op) and through an index -/
+example : okIs (applyUpdate (.doc []) (.doc [("$pullAll", .doc [("d.x", .arr [.int 1])])]) .null false
+        (.doc [("_id", .int 1), ("a", .int 1)])) (.doc [("_id", .int 1), ("a", .int 1)]) = true ∧
+    getPath (splitDots "d.x") (.doc [("_id", .int 1), ("a", .int 1)]) = none ∧
+    okIs (applyUpdate (.doc []) (.doc [("$addToSet", .doc [("a", .doc [("$each", .arr [.int 3, .int 3])])])])
+        .null false (.doc [("_id", .int 1), ("a", .arr [])])) (.doc [("_id", .int 1), ("a", .arr [.int 3])]) = true ∧
+    okIs (applyUpdate (.doc []) (.doc [("$min", .doc [("a.1", .int 0), ("a.3", .int 2)])]) .null false
+        (.doc [("_id", .int 1), ("a", .arr [.int 5, .int 5])]))
+      (.doc [("_id", .int 1), ("a", .arr [.int 5, .int 0, .null, .int 2])]) = true ∧
+    okIs (applyUpdate (.doc []) (.doc [("$pull", .doc [("d.c", .int 5), ("g.0", .int 5)])]) .null false
+        (.doc [("_id", .int 1), ("d", .arr [.int 5, .int 6]), ("g", .arr [.arr [.int 5, .int 6]])]))
+      (.doc [("_id", .int 1), ("d", .arr [.int 5, .int 6]), ("g", .arr [.arr [.int 6]])]) = true := by
+  decide +kernel
 
 /-- replacement / frame group: a mixed operator update succeeds, touches exactly the addressed
     top-level fields `c, e, a, d` and leaves `_id` and `z` alone -/
